@@ -184,6 +184,26 @@ func runC15(c *C15Case, nontrivial *bool) *Violation {
 	}
 	fan := utils.NewDynamicFanOut[midi.Event](midiEventsIn)
 
+	// A stall is "no progress", not "took long": the waits below give up only when the relevant counter has not moved for
+	// 2 x c15Guard while no emitter / feeder is in its planned pause (on a busy machine everything may be slow, nothing stands still)
+	var pausing int32
+	var collectedN int64
+	waitProgress := func(done <-chan struct{}, progress func() int64) bool {
+		last, lastMove := progress(), time.Now()
+		for {
+			select {
+			case <-done:
+				return true
+			case <-time.After(10 * time.Millisecond):
+			}
+			if p := progress(); p != last || atomic.LoadInt32(&pausing) > 0 {
+				last, lastMove = p, time.Now()
+			}
+			if time.Since(lastMove) > 2*c15Guard {
+				return false
+			}
+		}
+	}
 	// ---- output path: emitters -> port ----
 	var collected [][]byte
 	collectDone := make(chan struct{})
@@ -204,6 +224,7 @@ func runC15(c *C15Case, nontrivial *bool) *Violation {
 				select {
 				case m := <-pout.ch:
 					collected = append(collected, append([]byte(nil), m...))
+					atomic.AddInt64(&collectedN, 1)
 					if len(collected) == totalOut {
 						close(collectReached)
 					}
@@ -216,7 +237,9 @@ func runC15(c *C15Case, nontrivial *bool) *Violation {
 			go func(e, n int) {
 				for i := 0; i < n; i++ {
 					if idle > 0 && i == (n+1)/2 {
+						atomic.AddInt32(&pausing, 1)
 						time.Sleep(idle)
+						atomic.AddInt32(&pausing, -1)
 					}
 					select {
 					case midiEventsOut <- midi.Event{0x90 | byte(e), byte(i >> 7 & 0x7f), byte(i & 0x7f)}:
@@ -241,7 +264,9 @@ func runC15(c *C15Case, nontrivial *bool) *Violation {
 		defer close(feederDone)
 		for i := 0; i < c.InputN; i++ {
 			if idle > 0 && i == (c.InputN+1)/2 {
+				atomic.AddInt32(&pausing, 1)
 				time.Sleep(idle)
+				atomic.AddInt32(&pausing, -1)
 			}
 			// messages of other shapes travel with the numbered ones: real-time bytes, a SysEx, a 2-byte message (what the
 			// driver passes through); they belong to the numbered message that follows them
@@ -472,9 +497,7 @@ func runC15(c *C15Case, nontrivial *bool) *Violation {
 			}
 		}
 	}
-	select {
-	case <-feederDone:
-	case <-time.After(c15Guard + idle):
+	if !waitProgress(feederDone, func() int64 { return atomic.LoadInt64(&begun) }) {
 		rep, _ := blockedReport()
 		return violation("C15", "input-stalled", "", "the input stream stopped flowing although every remaining consumer is reading (%d of %d messages accepted)\n%s", atomic.LoadInt64(&begun), c.InputN, rep)
 	}
@@ -485,9 +508,12 @@ func runC15(c *C15Case, nontrivial *bool) *Violation {
 			continue // nothing (more) is owed to this consumer
 		}
 		live++
-		deadline := time.Now().Add(c15Guard)
-		for atomic.LoadInt64(&cs.last) < int64(c.InputN-1) && time.Now().Before(deadline) && c.InputN > 0 {
+		lastSeen, lastMove := atomic.LoadInt64(&cs.last), time.Now()
+		for atomic.LoadInt64(&cs.last) < int64(c.InputN-1) && time.Since(lastMove) < 2*c15Guard && c.InputN > 0 {
 			time.Sleep(200 * time.Microsecond)
+			if l := atomic.LoadInt64(&cs.last); l != lastSeen {
+				lastSeen, lastMove = l, time.Now()
+			}
 		}
 	}
 	for _, cs := range consumers {
@@ -504,12 +530,10 @@ func runC15(c *C15Case, nontrivial *bool) *Violation {
 			return violation("C15", "consumer-channel-not-closed", "", "consumer %d: its channel was not closed by DespawnOutput", k)
 		}
 	}
-	select {
-	case <-collectReached:
-	case <-time.After(c15Guard + idle):
+	if !waitProgress(collectReached, func() int64 { return atomic.LoadInt64(&collectedN) }) {
 		cancel()
 		<-collectDone
-		return violation("C15", "output-lost", "", "only %d of %d emitted messages reached the output port", len(collected), totalOut)
+		return violation("C15", "output-lost", "", "only %d of %d emitted messages reached the output port, and nothing more has arrived for %v", len(collected), totalOut, 2*c15Guard)
 	}
 	if !c.Direct {
 		time.Sleep(2 * time.Millisecond) // a duplicate of the last message would be right behind it
